@@ -4,6 +4,8 @@ import Octo.Props.C07
 import Octo.Props.C10Udp
 import Octo.Props.C02Udp
 import Octo.Props.C05Udp
+import Octo.Props.C03More
+import Octo.Props.C12
 /-!
   Property theorems for the code GENERATED from `octo-squirrel/src/codec/shadowsocks/udp.rs` (`Octo.SsUdpGen`, written by
   `bin/translate_ssudp.py` on every run): the Shadowsocks-2022 datagram decoder of the server side
@@ -25,7 +27,7 @@ structure Side (E : MEnv) (c : Context MT) (b : List UInt8) : Prop where
 
 /-- the side conditions are satisfiable (toy cryptography, any datagram of a possible length) -/
 example (c : Context MT) (b : List UInt8) (hu : (c.user_manager.getD []).length < 2 ^ 64) (hb : b.length < 2 ^ 64) :
-    Side ⟨Crypto.toy, 1700000000, false⟩ c b :=
+    Side { C := Crypto.toy, now := 1700000000, trace := false } c b :=
   ⟨Crypto.toy_lawful.open_len, Crypto.toy_lawful.aes_dec_len, by decide, hu, hb⟩
 
 /-- **C02 (refinement)**: the generated `decode_client_packet_aead_2022` (server side, AES kinds, both overflow profiles, any user
@@ -93,5 +95,224 @@ id — no two distinct cache keys collapse into one entry -/
 theorem c09_ssudp_gen_cipher_key_total_order (ov : Bool) {T : ExtTypes} (X : Ext T) :
     ∃ cmp : CipherKey → CipherKey → Ordering, (∀ a b, CipherKey.cmp ov X a b = PWGen.Res.ok (cmp a b)) ∧ Octo.Addr.TotalCmp cmp :=
   cipher_key_cmp_total ov X
+
+/-! ### added in the second round: every 2022 kind, the client side, the dispatch, `SessionCodec::decode` -/
+
+/-- **C02 (refinement, all 2022 kinds)**: `decode_client_packet_aead_2022` = the model in server mode, AES and XChaCha -/
+theorem c02_ssudp_gen_decode_client_refines_all (ov : Bool) (E : MEnv) (N : Usize) (codec : AEADCipherCodec) (c : Context MT)
+    (b : List UInt8) (k : Ss.Kind) (hk : toKind codec.kind = some k) (h22 : k.is2022 = true) (S : Side E c b) :
+    embed (AEADCipherCodec.decode_client_packet_aead_2022 ov (XM E) N codec c b) = SsUdp.decode E.C (toCtx k c) .server E.now b :=
+  decode_client_eq ov E N codec c b k hk h22 S.users S.len S.now S.open_len S.aes_len
+
+/-- **C02 / C10 (client side)**: `decode_server_packet_aead_2022` = the model in client mode (server type byte, echoed client
+session id, timestamp, padding, address) for every 2022 kind -/
+theorem c02_ssudp_gen_decode_server_refines (ov : Bool) (E : MEnv) (N : Usize) (codec : AEADCipherCodec) (c : Context MT)
+    (b : List UInt8) (k : Ss.Kind) (hk : toKind codec.kind = some k) (h22 : k.is2022 = true) (hm : c.stream_type = .Client)
+    (S : Side E c b) :
+    embed (AEADCipherCodec.decode_server_packet_aead_2022 ov (XM E) N codec c b) = SsUdp.decode E.C (toCtx k c) .client E.now b :=
+  decode_server_eq ov E N codec c b k hk h22 hm S.len S.now S.open_len S.aes_len
+
+/-- **C02 (dispatch)**: `AEADCipherCodec::decode` = the model's `decode` for every cipher kind (legacy: salt ‖ seal(address ‖
+payload)) and both directions; the legacy kinds need the key to have the length of the salt, as `Context::new` callers ensure -/
+theorem c02_ssudp_gen_decode_refines (ov : Bool) (E : MEnv) (N : Usize) (codec : AEADCipherCodec) (c : Context MT)
+    (b : List UInt8) (k : Ss.Kind) (hk : toKind codec.kind = some k) (hkey : k.is2022 = false → c.key.length = k.n) (S : Side E c b) :
+    embed (AEADCipherCodec.decode ov (XM E) N codec c b) = SsUdp.decode E.C (toCtx k c) (toMode c.stream_type) E.now b :=
+  decode_eq_model ov E N codec c b k hk hkey S.users S.len S.now S.open_len S.aes_len
+
+example : ∃ (c : Context MT) (k : Ss.Kind), toKind CipherKind.Aes128Gcm = some k ∧ (k.is2022 = false → c.key.length = k.n) :=
+  ⟨⟨.Server, none, List.replicate 16 0, []⟩, .aes128, rfl, fun _ => by decide⟩
+
+/-- **C07 (whole datagram path)**: no datagram makes `AEADCipherCodec::decode` panic, any kind, either direction -/
+theorem c07_ssudp_gen_decode_never_panics (ov : Bool) (E : MEnv) (N : Usize) (codec : AEADCipherCodec) (c : Context MT)
+    (b : List UInt8) (k : Ss.Kind) (hk : toKind codec.kind = some k) (hkey : k.is2022 = false → c.key.length = k.n) (S : Side E c b) :
+    AEADCipherCodec.decode ov (XM E) N codec c b ≠ PWGen.Res.panic := by
+  intro h
+  have e := c02_ssudp_gen_decode_refines ov E N codec c b k hk hkey S
+  rw [h] at e
+  exact c07_ss_udp_decode_total E.C (toCtx k c) _ E.now b e.symm
+
+/-- **C02 / C07 (`SessionCodec::decode`)**: an empty datagram is `Ok(None)`, anything else is decoded whole = the model's
+`sessionDecode`; hence never a panic (`c07_ss_udp_session_total`) -/
+theorem c02_ssudp_gen_session_decode_refines (ov : Bool) (E : MEnv) (N : Usize) (sc : SessionCodec MT) (b : List UInt8) (k : Ss.Kind)
+    (hk : toKind sc.cipher.kind = some k) (hkey : k.is2022 = false → sc.context.key.length = k.n) (S : Side E sc.context b) :
+    embedS (SessionCodec.decode ov (XM E) N sc b) =
+      SsUdp.sessionDecode E.C (toCtx k sc.context) (toMode sc.context.stream_type) E.now b :=
+  session_decode_eq ov E N sc b k hk hkey S.users S.len S.now S.open_len S.aes_len
+
+theorem c07_ssudp_gen_session_decode_never_panics (ov : Bool) (E : MEnv) (N : Usize) (sc : SessionCodec MT) (b : List UInt8) (k : Ss.Kind)
+    (hk : toKind sc.cipher.kind = some k) (hkey : k.is2022 = false → sc.context.key.length = k.n) (S : Side E sc.context b) :
+    SessionCodec.decode ov (XM E) N sc b ≠ PWGen.Res.panic := by
+  intro h
+  have e := c02_ssudp_gen_session_decode_refines ov E N sc b k hk hkey S
+  rw [h] at e
+  exact c07_ss_udp_session_total E.C (toCtx k sc.context) _ E.now b e.symm
+
+/-- **C10 (client side)**: a client's own request reflected to it (wrong type) is `Err` in the generated client decoder -/
+theorem c10_ssudp_gen_client_wrong_type_refused (ov : Bool) (E : MEnv) (N : Usize) (codec : AEADCipherCodec) (c : Context MT)
+    (b : List UInt8) (k : Ss.Kind) (hk : toKind codec.kind = some k) (h22 : k.is2022 = true) (hm : c.stream_type = .Client)
+    (S : Side E c b) (sid pid : Nat) (body : Bytes) (user : Option Ss.User)
+    (ho : SsUdp.opened E.C (toCtx k c) .client b = some (sid, pid, body, user))
+    (htype : body.headD 0 ≠ Ss.Mode.client.expectU8) :
+    embed (AEADCipherCodec.decode_server_packet_aead_2022 ov (XM E) N codec c b) = .err := by
+  rw [c02_ssudp_gen_decode_server_refines ov E N codec c b k hk h22 hm S]
+  exact SsUdp.c10_ss_udp_wrong_type_refused E.C (toCtx k c) h22 .client E.now b sid pid body user ho htype
+
+/-- **C10 (client side)**: a stale reply is `Err` in the generated client decoder -/
+theorem c10_ssudp_gen_client_stale_refused (ov : Bool) (E : MEnv) (N : Usize) (codec : AEADCipherCodec) (c : Context MT)
+    (b : List UInt8) (k : Ss.Kind) (hk : toKind codec.kind = some k) (h22 : k.is2022 = true) (hm : c.stream_type = .Client)
+    (S : Side E c b) (sid pid : Nat) (body : Bytes) (user : Option Ss.User)
+    (ho : SsUdp.opened E.C (toCtx k c) .client b = some (sid, pid, body, user))
+    (hstale : Ss.absDiff E.now (rdBE ((body.drop 1).take 8)) > Consts.ssMaxTimeDiff) :
+    embed (AEADCipherCodec.decode_server_packet_aead_2022 ov (XM E) N codec c b) = .err := by
+  rw [c02_ssudp_gen_decode_server_refines ov E N codec c b k hk h22 hm S]
+  exact SsUdp.c10_ss_udp_stale_refused E.C (toCtx k c) h22 .client E.now b sid pid body user ho hstale
+
+/-! ### added in the third round: the ENCODE side -/
+
+/-- the side conditions of the encoder theorems: sizes a Rust buffer can have, the clock, what the random-number externals
+hand out (padding of the drawn length ≤ 65535; 24 random bytes for an XChaCha nonce, `N` for a legacy salt), AES block length -/
+structure EncSide (E : MEnv) (N : Usize) (k : Ss.Kind) (addr : Address) (item : List UInt8) : Prop where
+  size : Socks5Addr.length (toAddr addr) + item.length + 70000 < 2 ^ 63
+  now : E.now < 2 ^ 64
+  pad : E.padding.length = E.padLen
+  padLen : E.padLen < 65536
+  rnd : if k.is2022 then 24 ≤ E.rnd.length else E.rnd.length = N.toNat
+  aes_len : ∀ key b, (E.C.aesEnc key b).length = 16
+
+example (a : SocketAddrV4) :
+    EncSide { C := Crypto.toy, now := 1700000000, trace := false, padLen := 3, padding := [1, 2, 3], rnd := List.replicate 24 7 }
+      32 .b3chacha20 (.Socket (.V4 a)) [] :=
+  ⟨by simp only [toAddr, Socks5Addr.length, List.length_nil]; omega, by show 1700000000 < 2 ^ 64; omega, rfl, by show 3 < 65536; omega,
+    by simp only [Ss.Kind.is2022, if_true, List.length_replicate]; omega, Crypto.toy_lawful.aes_enc_len⟩
+
+/-- **C03 (wire layout, refinement)**: `AEADCipherCodec::encode` (all three families, both directions; `dst` empty at entry, any
+number of identity keys below 2^59) writes byte for byte the model's `SsUdp.encode` with the randomness the externals handed out — hence
+every `c03_ss_udp_layout*` statement (Spec layouts: separate header = session id ‖ packet id under AES, identity header,
+type ‖ time ‖ [client session id] ‖ padding length ‖ padding ‖ address ‖ payload, padding BEFORE the address) holds of the
+generated code -/
+theorem c03_ssudp_gen_encode_refines (ov : Bool) (E : MEnv) (N : Usize) (codec : AEADCipherCodec) (c : Context MT) (s : Session)
+    (addr : Address) (item : List UInt8) (k : Ss.Kind) (hk : toKind codec.kind = some k) (hik : c.identity_keys.length < 2 ^ 59)
+    (S : EncSide E N k addr item) :
+    AEADCipherCodec.encode ov (XM E) N codec c s addr item [] =
+      .ok (SsUdp.encode E.C (toCtx k c) (toMode c.stream_type) (toSession s) (toAddr addr) item (randOf E item), .ok ()) :=
+  encode_eq_model ov E N codec c s addr item k hk hik S.size S.now S.pad S.padLen S.rnd S.aes_len
+
+/-- **C03 (`SessionCodec::encode`)** -/
+theorem c03_ssudp_gen_session_encode_refines (ov : Bool) (E : MEnv) (N : Usize) (sc : SessionCodec MT) (content : List UInt8)
+    (addr : Address) (s : Session) (k : Ss.Kind) (hk : toKind sc.cipher.kind = some k) (hik : sc.context.identity_keys.length < 2 ^ 59)
+    (S : EncSide E N k addr content) :
+    SessionCodec.encode ov (XM E) N sc (content, addr, s) [] =
+      .ok (SsUdp.encode E.C (toCtx k sc.context) (toMode sc.context.stream_type) (toSession s) (toAddr addr) content
+        (randOf E content), .ok ()) :=
+  session_encode_eq ov E N sc content addr s k hk hik S.size S.now S.pad S.padLen S.rnd S.aes_len
+
+/-- **C03 (AES request layout of the generated encoder, spelled out)**: `AES(header key, sid ‖ pid) ‖ identity header ‖
+AEAD(session subkey, nonce = (sid ‖ pid)[4..16], 0 ‖ time ‖ padding length ‖ padding ‖ address ‖ payload)`; the padding is
+non-empty only for an empty payload (`padOf`) -/
+theorem c03_ssudp_gen_aes_request_layout (ov : Bool) (E : MEnv) (N : Usize) (codec : AEADCipherCodec) (c : Context MT) (s : Session)
+    (addr : Address) (item : List UInt8) (k : Ss.Kind) (hk : toKind codec.kind = some k)
+    (hkind : k = .b3aes128 ∨ k = .b3aes256) (hik : c.identity_keys.length < 2 ^ 59) (S : EncSide E N k addr item) :
+    AEADCipherCodec.encode_client_packet_aead_2022 ov (XM E) N codec c s addr item [] = .ok (
+      E.C.aesEnc ((c.identity_keys ++ [c.key]).headD []) (be64 s.client_session_id.toNat ++ be64 s.packet_id.toNat) ++
+      Spec.udpIdentityHeaders E.C (be64 s.client_session_id.toNat ++ be64 s.packet_id.toNat) (c.identity_keys ++ [c.key]) ++
+      E.C.sealB k.alg (Spec.sessionSubkey E.C (specCipher k) c.key (be64 s.client_session_id.toNat))
+        ((be64 s.client_session_id.toNat ++ be64 s.packet_id.toNat).drop 4) []
+        ([(0 : UInt8)] ++ be64 E.now ++ be16 (padOf E item).length ++ padOf E item ++ Socks5Addr.encode (toAddr addr) ++ item),
+      .ok ()) := by
+  have h22 : k.is2022 = true := by rcases hkind with h | h <;> rw [h] <;> rfl
+  have hr : 24 ≤ E.rnd.length ∨ True := Or.inr trivial
+  have hx : SsUdp.xAlg k = none := by rcases hkind with h | h <;> rw [h] <;> rfl
+  have e : AEADCipherCodec.encode_client_packet_aead_2022 ov (XM E) N codec c s addr item [] =
+      .ok (SsUdp.encode E.C (toCtx k c) .client (toSession s) (toAddr addr) item (randOf E item), .ok ()) := by
+    cases hi : c.identity_keys with
+    | nil => exact enc_client_aes ov E N codec c s addr item k hk hx h22 hi (by have := S.size; omega) S.now S.pad S.padLen
+    | cons ik iks =>
+      exact enc_client_aes_eih ov E N codec c s addr item k ik iks hk hx h22 hi (by rw [← hi]; exact hik) S.size S.now S.pad S.padLen
+        S.aes_len
+  rw [e, c03_ss_udp_layout_aes_request E.C (toCtx k c) hkind]
+  rfl
+
+/-- **identity headers as coded (after the repair 743f501)**: with identity keys, EVERY identity header `with_eih` appended (16 bytes
+per key) stays in clear between the AES-encrypted separate header and the sealed body, as the model and the specification
+have it.  (The code before the repair skipped a constant 16 bytes, so with two or more identity keys the later headers were
+sealed with the body; that layout was stated under this name in the previous round and is refuted by this theorem for the
+current code.) -/
+theorem c03_ssudp_gen_eih_layout_as_coded (ov : Bool) (E : MEnv) (N : Usize) (codec : AEADCipherCodec) (c : Context MT) (s : Session)
+    (addr : Address) (item : List UInt8) (k : Ss.Kind) (ik : Bytes) (iks : List Bytes)
+    (hk : toKind codec.kind = some k) (hx : SsUdp.xAlg k = none) (h22 : k.is2022 = true) (hik : c.identity_keys = ik :: iks)
+    (hn : (ik :: iks).length < 2 ^ 59) (S : EncSide E N k addr item) :
+    AEADCipherCodec.encode_client_packet_aead_2022 ov (XM E) N codec c s addr item [] =
+      .ok (E.C.aesEnc ik (be64 s.client_session_id.toNat ++ be64 s.packet_id.toNat) ++
+          SsUdp.withEih E.C c.key (be64 s.client_session_id.toNat ++ be64 s.packet_id.toNat) (ik :: iks) ++
+          E.C.sealB k.alg (SsUdp.aesSessionKey E.C k c.key s.client_session_id.toNat)
+            ((be64 s.client_session_id.toNat ++ be64 s.packet_id.toNat).drop 4) []
+            ([0] ++ be64 E.now ++ be16 (padOf E item).length ++ padOf E item ++ Socks5Addr.encode (toAddr addr) ++ item),
+        .ok ()) := by
+  have he : k.supportEih = true := by cases k <;> simp_all [SsUdp.xAlg, Ss.Kind.is2022, Ss.Kind.supportEih]
+  rw [enc_client_aes_eih ov E N codec c s addr item k ik iks hk hx h22 hik hn S.size S.now S.pad S.padLen S.aes_len]
+  simp only [SsUdp.encode, toCtx, h22, not_true_eq_false, if_false, hx, hik, toSession, randOf, Ss.Mode.toU8, he, ne_eq,
+    List.cons_ne_nil, not_false_eq_true, and_self, if_true, reduceCtorEq]
+
+/-- **C12 (nonce of the AES kinds)**: the AEAD nonce of the generated encoders is bytes 4..16 of (session id ‖ packet id) — see
+the layouts above — so two datagrams of one session with different packet ids never share a nonce (and the key, a function of
+the session id alone, is the same): no (key, nonce) pair is used twice as long as packet ids differ -/
+theorem c12_ssudp_gen_aes_nonce_distinct (s1 s2 : Session) (hsid : s1.client_session_id = s2.client_session_id)
+    (hpid : s1.packet_id ≠ s2.packet_id) :
+    (be64 s1.client_session_id.toNat ++ be64 s1.packet_id.toNat).drop 4 ≠
+      (be64 s2.client_session_id.toNat ++ be64 s2.packet_id.toNat).drop 4 := by
+  rw [hsid]
+  exact c12_udp_aes_nonce_distinct _ _ _ s1.packet_id.toNat_lt s2.packet_id.toNat_lt (fun h => hpid (UInt64.toNat_inj.mp h))
+
+/-- **C12 (XChaCha kinds)**: the 24-byte nonce on the wire and in the AEAD is exactly what the random-number external
+`dice::fill_bytes` wrote (fresh per packet: the randomness is an external), never derived from ids -/
+theorem c12_ssudp_gen_xchacha_nonce_is_random (ov : Bool) (E : MEnv) (N : Usize) (codec : AEADCipherCodec) (c : Context MT)
+    (s : Session) (addr : Address) (item : List UInt8) (k : Ss.Kind) (xa : Alg) (hk : toKind codec.kind = some k)
+    (hx : SsUdp.xAlg k = some xa) (S : EncSide E N k addr item) :
+    ∃ body, AEADCipherCodec.encode_client_packet_aead_2022 ov (XM E) N codec c s addr item [] =
+      .ok (E.rnd.take 24 ++ E.C.sealB xa (c.key.take 32) (E.rnd.take 24) [] body, .ok ()) := by
+  have h22 : k.is2022 = true := by cases k <;> simp_all [SsUdp.xAlg, Ss.Kind.is2022]
+  rw [enc_client_x ov E N codec c s addr item k xa hk hx (by have := S.size; omega) S.now S.pad S.padLen (by simpa [h22] using S.rnd)]
+  simp only [SsUdp.encode, toCtx, h22, not_true_eq_false, if_false, hx, randOf]
+  exact ⟨_, rfl⟩
+
+/-- **C02 (round trip, request direction, generated encoder → generated decoder)**: what the generated client encoder writes for
+a session is decoded by the generated server decoder of a paired server (`SsUdp.Paired`: same kind; XChaCha: same key; AES: same
+key and no users, or the server key as the client's identity key and the client's key registered) to the same payload,
+address, session id, packet id, and attributed to the paired user -/
+theorem c02_ssudp_gen_request_roundtrip (ov : Bool) (E : MEnv) (hC : E.C.Lawful) (N : Usize) (cc sc : AEADCipherCodec)
+    (c cs : Context MT) (s : Session) (addr : Address) (item : List UInt8) (k : Ss.Kind)
+    (hkc : toKind cc.kind = some k) (hks : toKind sc.kind = some k) (h22 : k.is2022 = true)
+    (hik : c.identity_keys.length < 2 ^ 59) (owner : Option Ss.User)
+    (hp : SsUdp.Paired E.C (toCtx k c) (toCtx k cs) owner) (ha : (toAddr addr).Accepted)
+    (S : EncSide E N k addr item) (hul : (cs.user_manager.getD []).length < 2 ^ 64)
+    (hw : (SsUdp.encode E.C (toCtx k c) .client (toSession s) (toAddr addr) item (randOf E item)).length < 2 ^ 64) :
+    ∃ w, AEADCipherCodec.encode_client_packet_aead_2022 ov (XM E) N cc c s addr item [] = .ok (w, .ok ()) ∧
+      embed (AEADCipherCodec.decode_client_packet_aead_2022 ov (XM E) N sc cs w) =
+        .ok (item, toAddr addr, ⟨s.client_session_id.toNat, 0, s.packet_id.toNat, owner⟩) := by
+  have hr : 24 ≤ E.rnd.length := by simpa [h22] using S.rnd
+  refine ⟨_, encode_client_eq ov E N cc c s addr item k hkc h22 hik S.size S.now S.pad S.padLen hr S.aes_len, ?_⟩
+  rw [decode_client_eq ov E N sc cs _ k hks h22 hul hw S.now hC.open_len hC.aes_dec_len]
+  have hpl : (padOf E item).length < 65536 := by
+    unfold padOf; split
+    · rw [S.pad]; exact S.padLen
+    · simp
+  exact SsUdp.request_paired E.C hC (toCtx k c) (toCtx k cs) owner hp (toSession s) s.client_session_id.toNat_lt s.packet_id.toNat_lt
+    (toAddr addr) ha item (randOf E item) E.now ⟨S.now, by simp [randOf, Ss.absDiff], hpl⟩
+    (fun _ => by simp only [randOf, List.length_take]; omega)
+
+/-- **C12 (packet id step)**: `Session::increase_packet_id` steps the id by exactly one and never panics; below 2^64 − 1 the new id is
+the model's `packetId + 1`, so ids of consecutive datagrams differ and `c12_ssudp_gen_aes_nonce_distinct` applies -/
+theorem c12_ssudp_gen_packet_id_steps (ov : Bool) {T : ExtTypes} (X : Ext T) (N : Usize) (s : Session)
+    (h : s.packet_id.toNat + 1 < 2 ^ 64) :
+    ∃ s', Session.increase_packet_id ov X N s = PWGen.Res.ok (s', ()) ∧ (toSession s').packetId = (toSession s).packetId + 1 ∧
+      s'.packet_id ≠ s.packet_id ∧ s'.client_session_id = s.client_session_id ∧ s'.server_session_id = s.server_session_id :=
+  ⟨_, increase_packet_id_eval ov X N s, increase_packet_id_toNat s h, by
+    intro e
+    have := congrArg UInt64.toNat e
+    simp only [UInt64.toNat_add, UInt64.reduceToNat] at this
+    rw [Nat.mod_eq_of_lt h] at this
+    omega, rfl, rfl⟩
+
+example : ∃ s : Session, s.packet_id.toNat + 1 < 2 ^ 64 := ⟨⟨0, 0, 0, none⟩, by decide⟩
 
 end Octo.Props.C02SsUdpGen
